@@ -263,6 +263,7 @@ fn worker(sh: std::sync::Arc<Shared>, beat: std::sync::Arc<Mutex<Beat>>) {
     rep.jobs += 1;
     let mut first = true;
     let mut n_exec: u64 = 0;
+    let step = (sh.jobs.len() / 10).max(1);
     let stats = explore_from(&job.root, job.dev_bound, job.max_execs, |ch| {
       {
         let mut b = beat.lock().unwrap();
@@ -298,8 +299,13 @@ fn worker(sh: std::sync::Arc<Shared>, beat: std::sync::Arc<Mutex<Beat>>) {
           ));
         }
       }
-      if first && (n_exec == 2 || job.max_execs == 1) && i % 97 == 0 && rep.samples.len() < 12 {
-        first = false;
+      // one written-out case from every step-th scenario: its second execution
+      // when there is one (the first is the all-defaults path), else its first
+      if first && n_exec <= 2 && i % step == 0 {
+        if n_exec == 2 {
+          first = false;
+          rep.samples.clear();
+        }
         let mut ch3 = Chooser::new(ch.choices(), u32::MAX);
         ch3.want_labels = true;
         let o3 = run_one(job, &mut ch3, true);
